@@ -231,6 +231,12 @@ def run(chk):
         from ..userclass import _MISSING
 
         have |= {r for r in need_cb if built._uc_lookup(r) is not _MISSING}
+    else:
+        # ... or a callable that a class decorator of the package stores on the class (`setattr(cls, rule, make_rule(...))`): the
+        # decorator is evaluated with the class standing in (what it installs is what instances find)
+        from ..pkgenv import installed_by_decorators
+
+        have |= {r for r, v in installed_by_decorators(P, FILE, "_VerilogCircuitGraphTransformer").items() if callable(v) or hasattr(v, "_cg_fdef")}
     for r in need_cb:
         chk.ob("C02.G.rule-has-callback", r, r in have and r in rule_names, file=FILE, func=f"_VerilogCircuitGraphTransformer.{r}", fact={"rule_in_grammar": r in rule_names, "callback": r in have},
                expect="rule present in the grammar with a transformer callback")
